@@ -95,8 +95,8 @@ func safely(f func()) (msg string) {
 	return ""
 }
 
-// Reuse3 runs the steps in order on ONE renderer value made by mk.  For every step the Info string and
-// (unless InfoOnly) the triangle sequence are compared, bit for bit and in order, with those of a
+// Reuse3 runs the steps in order on ONE renderer value made by mk.  For every step Info is called and
+// (unless InfoOnly) the triangle sequence is compared, bit for bit and in order, with that of a
 // fresh renderer value made by mk for the same model.  visit (may be nil) receives every render of the
 // reused renderer together with the model, for the caller's own oracles.
 func Reuse3(mk func() render.Render3, steps []Step3, visit func(i int, st Step3, ts []*sdf.Triangle3)) []ReuseDiff {
@@ -107,12 +107,10 @@ func Reuse3(mk func() render.Render3, steps []Step3, visit func(i int, st Step3,
 			out = append(out, ReuseDiff{i, st.Name, fmt.Sprintf(f, a...)})
 		}
 		fresh := mk()
-		wantInfo := fresh.Info(st.S)
-		var gotInfo string
-		if msg := safely(func() { gotInfo = reused.Info(st.S) }); msg != "" {
+		// Info is called as the output routines do (it is a step of the history); its text is not an
+		// observable of the mesh properties and is not compared
+		if msg := safely(func() { reused.Info(st.S) }); msg != "" {
 			bad("Info panicked: %s", msg)
-		} else if gotInfo != wantInfo {
-			bad("Info returns %q, a fresh renderer value returns %q", gotInfo, wantInfo)
 		}
 		if st.InfoOnly {
 			continue
@@ -159,12 +157,10 @@ func Reuse2(mk func() render.Render2, steps []Step2, visit func(i int, st Step2,
 			out = append(out, ReuseDiff{i, st.Name, fmt.Sprintf(f, a...)})
 		}
 		fresh := mk()
-		wantInfo := fresh.Info(st.S)
-		var gotInfo string
-		if msg := safely(func() { gotInfo = reused.Info(st.S) }); msg != "" {
+		// Info is called as the output routines do (it is a step of the history); its text is not an
+		// observable of the mesh properties and is not compared
+		if msg := safely(func() { reused.Info(st.S) }); msg != "" {
 			bad("Info panicked: %s", msg)
-		} else if gotInfo != wantInfo {
-			bad("Info returns %q, a fresh renderer value returns %q", gotInfo, wantInfo)
 		}
 		if st.InfoOnly {
 			continue
@@ -205,7 +201,9 @@ func Reuse2(mk func() render.Render2, steps []Step2, visit func(i int, st Step2,
 // Histories3 builds the standard histories over a family of models of different absolute size: for the
 // model list ms (name, model) it returns sequences in which a model is preceded by a bigger one, by a
 // smaller one (size ratio as given by the list), by an Info-only call on another model, and repeated.
-//   big -> small,  Info(big) -> small,  small -> big,  a -> b -> a,  Info(a), Info(b) -> a
+//
+//	big -> small,  Info(big) -> small,  small -> big,  a -> b -> a,  Info(a), Info(b) -> a
+//
 // ms should hold at least three models whose bounding boxes differ in their longest side.
 func Histories3(ms []Step3) [][]Step3 {
 	info := func(s Step3) Step3 { s.InfoOnly = true; return s }
